@@ -14,4 +14,5 @@ INVARIANT OracleMirror
 INVARIANT OracleRotation
 INVARIANT OracleTranslation
 INVARIANT OracleNeverOrigin
+INVARIANT OracleAxisGap
 CHECK_DEADLOCK FALSE
